@@ -240,6 +240,45 @@ def real_text(wr, e):
     return str(w)
 
 
+def gen_condition(g, bb, depth):
+    """a real basic_blocks.Condition over real CondBlocks (leaf: one comparison) and ShortCircuitBlocks (nested Condition)"""
+    ir, rng = g.ir, g.rng
+
+    def leaf():
+        while True:
+            e, _w = g.tree(rng.choice((1, 2, 2, 3)), "top", False)
+            if isinstance(e, (ir.ConditionalExpression, ir.ConditionalZExpression)):
+                g.n += 1
+                return bb.CondBlock("c%d" % g.n, [e])
+
+    def operand(d):
+        if d <= 0 or rng.random() < 0.5:
+            return leaf()
+        g.n += 1
+        return bb.ShortCircuitBlock("s%d" % g.n, gen_condition(g, bb, d - 1))
+    return bb.Condition(operand(depth), operand(depth), rng.random() < 0.5, rng.random() < 0.4)
+
+
+def cond_words(ir, bb, c):
+    if isinstance(c, bb.Condition):
+        return ["scc", "&&" if c.isand else "||"] + cond_words(ir, bb, c.cond1) + cond_words(ir, bb, c.cond2)
+    if isinstance(getattr(c, "cond", None), bb.Condition):        # ShortCircuitBlock (a CondBlock without instructions)
+        return cond_words(ir, bb, c.cond)
+    if isinstance(c, bb.CondBlock) and c.ins:
+        return words_of(ir, c.ins[-1])
+    raise Unsupported(type(c).__name__)
+
+
+def cond_expected(ir, bb, c):
+    if isinstance(c, bb.Condition):
+        return "(bin %s (paren %s) (paren %s))" % ("&&" if c.isand else "||", cond_expected(ir, bb, c.cond1), cond_expected(ir, bb, c.cond2))
+    if isinstance(getattr(c, "cond", None), bb.Condition):
+        return cond_expected(ir, bb, c.cond)
+    if isinstance(c, bb.CondBlock) and c.ins:
+        return expected_tree(ir, c.ins[-1])
+    raise NoTree()
+
+
 # ---------------------------------------------------------------------------------------------------------------
 # oracle: what javac's parser makes of the real text, against the tree the IR expression is (independent of the model)
 
@@ -444,13 +483,19 @@ def stream(ck_seed, n, start=0):
     from harness.fw import REPO
     _dex, _oi, ir, wr = gt._load(REPO)
     util = importlib.import_module("androguard.decompiler.util")
+    bb = importlib.import_module("androguard.decompiler.basic_blocks")
     rng = random.Random("c21-jexpr-%d" % ck_seed)
     g = Gen(ir, util, rng)
     for i in range(n):
         wild = i % 5 == 4
-        want = rng.choice(("num", "num", "ref", "top", "top", "bool"))
-        depth = rng.choice((1, 2, 2, 3, 3, 4))
-        e, words = g.tree(depth, want, wild)
+        if i % 7 == 6:
+            # a compound condition: printed by Condition.visit -> visit_short_circuit_condition; the words are read off
+            # the objects AFTER printing (printing negates cond1 when isnot is set)
+            e, words, wild = gen_condition(g, bb, rng.choice((0, 1, 1, 2))), None, False
+        else:
+            want = rng.choice(("num", "num", "ref", "top", "top", "bool"))
+            depth = rng.choice((1, 2, 2, 3, 3, 4))
+            e, words = g.tree(depth, want, wild)
         if i >= start:
             yield i, ir, wr, e, words, wild
 
@@ -466,10 +511,36 @@ def observe(ir, wr, e):
     return exp, text, (" ".join(toks) if toks is not None else "not-java:" + text)
 
 
+def observe_condition(ir, wr, c):
+    """(words, expected tree, real text, lexemes) of a basic_blocks.Condition; words and expectation describe the state AFTER
+    printing: visit_short_circuit_condition negates cond1 when isnot is set, every time it prints"""
+    import importlib
+    bb = importlib.import_module("androguard.decompiler.basic_blocks")
+    try:
+        text = real_text(wr, c)
+    except Exception as ex:  # noqa
+        return None, None, None, "other:" + type(ex).__name__
+    try:
+        exp = cond_expected(ir, bb, c)
+    except Exception:  # noqa
+        exp = None
+    try:
+        words = cond_words(ir, bb, c)
+    except Unsupported:
+        words = None
+    toks = lex(text)
+    return words, exp, text, (" ".join(toks) if toks is not None else "not-java:" + text)
+
+
 def leg(ck, drv, n, workdir):
     reqs, real, texts, exps, wilds = [], [], [], [], []
     for i, ir, wr, e, words, wild in stream(ck.seed, n):
-        exp, text, r = observe(ir, wr, e)
+        if words is None:
+            words, exp, text, r = observe_condition(ir, wr, e)
+            if words is None:
+                words = ["this"]
+        else:
+            exp, text, r = observe(ir, wr, e)
         reqs.append("jexpr " + " ".join(words))
         real.append(r); texts.append(text); exps.append(exp); wilds.append(wild)  # noqa: E702
     replies = drv.ask(reqs)
@@ -580,6 +651,19 @@ def words_of(ir, e):
         return ["aload"] + sub(e.array) + sub(e.idx)
     if isinstance(e, ir.ArrayLengthExpression):
         return ["alen"] + sub(e.array)
+    if isinstance(e, ir.NewArrayExpression):
+        et = e.type[1:]
+        return ["newarr", PRIMS.get(et) or dotted(et)] + sub(e.size)
+    if isinstance(e, ir.InvokeInstruction):
+        args = []
+        for a in e.args:
+            args += sub(a)
+        base = vm[e.base]
+        if e.name == "<init>":
+            if isinstance(base, ir.NewInstance):
+                return ["new", dotted(base.type), str(len(e.args))] + args
+            raise Unsupported("<init> on " + type(base).__name__)
+        return ["invoke", e.name, str(len(e.args))] + words_of(ir, base) + args
     raise Unsupported(type(e).__name__)
 
 
@@ -608,7 +692,9 @@ def leg_pipeline(ck, drv, workdir, n_methods):
     DEX = importlib.import_module("androguard.core.dex").DEX
     Analysis = importlib.import_module("androguard.core.analysis.analysis").Analysis
     DvMethod = importlib.import_module("androguard.decompiler.decompile").DvMethod
+    bb = importlib.import_module("androguard.decompiler.basic_blocks")
     import random
+    ncond = 0
     rng = random.Random("c21-pipeline-%d" % ck.seed)
     reqs, real, texts, exps, where = [], [], [], [], []
     skipped = {}
@@ -630,6 +716,17 @@ def leg_pipeline(ck, drv, workdir, n_methods):
             nm += 1
             seen = set()
             for node in nodes:
+                c = getattr(node, "cond", None)
+                if isinstance(c, bb.Condition) and id(c) not in seen:
+                    seen.add(id(c))
+                    words, exp, text, r = observe_condition(ir, wr, c)
+                    if words is None:
+                        skipped["condition"] = skipped.get("condition", 0) + 1
+                    else:
+                        reqs.append("jexpr " + " ".join(words))
+                        real.append(r); texts.append(text); exps.append(exp)  # noqa: E702
+                        where.append((start, str(m.get_name())))
+                        ncond += 1
                 try:
                     inss = list(node.get_ins())
                 except Exception:  # noqa
@@ -668,7 +765,7 @@ def leg_pipeline(ck, drv, workdir, n_methods):
     ck.compare("expression trees of decompiled methods: well formed, lexemes, javac tree", reqs, real2, model)
     ck.cover(evaluations=len(reqs), distinct=set(reqs),
              samples=[{"request": reqs[i], "text": texts[i], "model": replies[i]} for i in (0, len(reqs) // 2)],
-             dist={"pipeline_methods": nm, "pipeline_expression_trees": len(reqs), "pipeline_trees_not_wf": notwf,
+             dist={"pipeline_methods": nm, "pipeline_expression_trees": len(reqs), "pipeline_compound_conditions": ncond, "pipeline_trees_not_wf": notwf,
                    "pipeline_skipped": skipped})
 
 
@@ -676,7 +773,10 @@ def replay(ck, c):
     import tempfile
     import shutil
     for i, ir, wr, e, words, wild in stream(c["seed"], c["index"] + 1, start=c["index"]):
-        exp, text, r = observe(ir, wr, e)
+        if words is None:
+            words, exp, text, r = observe_condition(ir, wr, e)
+        else:
+            exp, text, r = observe(ir, wr, e)
         d = tempfile.mkdtemp(prefix="c21-jx-")
         try:
             jt = javac_trees(d, [text if text is not None else "?"])[0]
